@@ -224,7 +224,9 @@ type Description struct {
 	Rule        string            `json:"rule"`
 	RealVsStub  map[string]string `json:"real_vs_stub"`
 	Assumptions []string          `json:"assumptions"`
-	NeedsRace   bool              `json:"-"`
+	// Legend explains counter names in the evidence (e.g. site numbers).
+	Legend    map[string]string `json:"legend,omitempty"`
+	NeedsRace bool              `json:"-"`
 	// FreshProcess: candidates during minimisation must run in a fresh
 	// process (race detector state).
 	FreshProcess bool `json:"-"`
